@@ -164,7 +164,7 @@ static void run_op(cif::Document& doc, Toks& tk, std::vector<std::string>& out) 
     else if (top == "append") t.append_row(vals);
     else if (top == "rmrows") t.remove_rows(a, c);
     else if (top == "moverow") t.move_row(a, c);
-    else if (top == "ensure") t.ensure_loop();
+    else if (top == "ensure") { t.ensure_loop(); table_look(t, out); }  // the handle stays usable: dump it
     else if (top == "erase") t.erase();
     else if (top == "colerase") t.column(a).erase();
     else throw std::logic_error("history spec: unknown table op " + top);
